@@ -452,3 +452,87 @@ func scenarioSharedFailingImport(r *Rng) *project {
 	}
 	return p
 }
+
+// Multi-entry CSS (and CSS-from-JS) projects that are bundled WITHOUT code
+// splitting, so every entry point is linked on its own goroutine while all
+// linkers share the parsed ASTs: shared files imported several times per
+// entry point, "@layer a, b, c;" statements with 1..15 names (slices with and
+// without spare capacity), per-entry layer statements, @import conditions.
+// Besides the usual comparison across schedules, each entry point's output
+// must equal the output of a build of that entry point alone.
+func scenarioCSSLayers(r *Rng) *project {
+	p := &project{Kind: "css-shared-layers", Files: map[string]string{}}
+	nShared := r.Range(1, 3)
+	spare := []int{3, 5, 6, 7, 9, 11, 13, 15}
+	anyCount := []int{3, 5, 6, 7, 9, 11, 13, 15, 1, 2, 4, 8}
+	conds := []string{"", "", "", " screen", " layer(lib)", " supports(display: grid)", " (min-width: 600px)"}
+	var shared []string
+	for s := 0; s < nShared; s++ {
+		k := anyCount[r.Intn(len(anyCount))]
+		if s == 0 && r.Chance(80) {
+			k = spare[r.Intn(len(spare))] // a name list whose slice has spare capacity
+		}
+		var names []string
+		for i := 0; i < k; i++ {
+			names = append(names, fmt.Sprintf("s%dl%d", s, i))
+		}
+		name := fmt.Sprintf("src/shared%d.css", s)
+		var sb strings.Builder
+		fmt.Fprintf(&sb, "@layer %s;\n", strings.Join(names, ", "))
+		if s > 0 && r.Bool() {
+			fmt.Fprintf(&sb, "@import \"./shared0.css\";\n@layer post%d, post%db, post%dc;\n", s, s, s)
+		}
+		if r.Chance(70) {
+			fmt.Fprintf(&sb, "html { box-sizing: border-box }\n@layer %s { .s%d { margin: %dpx } }\n", names[0], s, s)
+		}
+		p.Files[name] = sb.String()
+		shared = append(shared, name)
+	}
+	nPages := r.Range(4, 12)
+	cond := conds[r.Intn(len(conds))] // one condition for the core shape of this project
+	for i := 0; i < nPages; i++ {
+		// core shape: the page imports shared0 and then its own widget; the widget
+		// declares its own layer(s) and imports shared0 again under the same condition
+		widget := fmt.Sprintf("src/widget%d.css", i)
+		var wb strings.Builder
+		fmt.Fprintf(&wb, "@layer widget%d", i)
+		for j := r.Intn(3); j > 0; j-- {
+			fmt.Fprintf(&wb, ", widget%dx%d", i, j)
+		}
+		wb.WriteString(";\n")
+		fmt.Fprintf(&wb, "@import \"./shared0.css\"%s;\n", cond)
+		for _, s := range shared[1:] {
+			if r.Chance(50) {
+				fmt.Fprintf(&wb, "@import \"./%s\"%s;\n", strings.TrimPrefix(s, "src/"), conds[r.Intn(len(conds))])
+			}
+		}
+		fmt.Fprintf(&wb, "@layer widget%d { .widget%d { color: rgb(%d, 0, 0) } }\n", i, i, i)
+		p.Files[widget] = wb.String()
+
+		page := fmt.Sprintf("src/page%d.css", i)
+		var pb strings.Builder
+		for _, s := range shared[1:] {
+			if r.Chance(40) {
+				fmt.Fprintf(&pb, "@import \"./%s\"%s;\n", strings.TrimPrefix(s, "src/"), conds[r.Intn(len(conds))])
+			}
+		}
+		fmt.Fprintf(&pb, "@import \"./shared0.css\"%s;\n", cond)
+		fmt.Fprintf(&pb, "@import \"./widget%d.css\"%s;\n", i, cond)
+		if r.Chance(25) {
+			fmt.Fprintf(&pb, "@import \"./widget%d.css\"%s;\n", (i+1)%nPages, cond) // a neighbour's widget as well
+		}
+		if r.Chance(30) {
+			fmt.Fprintf(&pb, "@import \"./shared0.css\"%s;\n", cond)
+		}
+		fmt.Fprintf(&pb, ".page%d { color: blue; inset: %dpx }\n", i, i)
+		p.Files[page] = pb.String()
+		if r.Chance(30) {
+			js := fmt.Sprintf("src/page%d.js", i)
+			p.Files[js] = fmt.Sprintf("import './page%d.css'\nconsole.log('page%d')\n", i, i)
+			p.Entries = append(p.Entries, js)
+		} else {
+			p.Entries = append(p.Entries, page)
+		}
+	}
+	return p
+}
